@@ -42,10 +42,10 @@ func register(p *Prop) { Registry[p.ID] = p }
 
 func init() {
 	register(&Prop{
-		ID:  "C03",
-		Run: RunC03,
-		Replay: func(c *Ctx, entry, input string) { CheckC03(c, entry, input) },
-		Rule: "cases = (entry point, byte string): exhaustive strings over the 24-symbol alphabet through all 11 entry points (plus one more symbol for lexer/splitter), literal/escape/truncation matrix, number forms, adversarial nesting families (depth<=512, input<=16KiB), token mutants / hostile splices / random bytes over all 256 byte values; distinct_nontrivial = enumerated strings (distinct by construction) + distinct (entry,input) pairs of the random part",
+		ID:          "C03",
+		Run:         RunC03,
+		Replay:      func(c *Ctx, entry, input string) { CheckC03(c, entry, input) },
+		Rule:        "cases = (entry point, byte string): exhaustive strings over the 24-symbol alphabet through all 11 entry points (plus one more symbol for lexer/splitter), literal/escape/truncation matrix, number forms, adversarial nesting families (depth<=512, input<=16KiB), token mutants / hostile splices / random bytes over all 256 byte values; distinct_nontrivial = enumerated strings (distinct by construction) + distinct (entry,input) pairs of the random part",
 		Assumptions: []string{"bounded time is decided on a logical clock: token fetches <= 10*(bytes+16)^2 (hook H1); loops that fetch no token are left to the wall-clock watchdog", "inputs are bounded to 16 KiB and nesting depth 512"},
 		Floors: func(m *Merged) []string {
 			var f []string
@@ -56,10 +56,10 @@ func init() {
 		},
 	})
 	register(&Prop{
-		ID:  "C13",
-		Run: RunC13,
-		Replay: func(c *Ctx, entry, input string) { CheckC13(c, input) },
-		Rule: "cases = byte strings: exhaustive over the 24-symbol alphabet up to length 5 (quick) / 6 (thorough), literal matrix, number forms, keyword casings, comment forms, corpus files, random hostile bytes; distinct_nontrivial = accepted enumerated strings (distinct by construction) + distinct accepted strings of the other workloads",
+		ID:          "C13",
+		Run:         RunC13,
+		Replay:      func(c *Ctx, entry, input string) { CheckC13(c, input) },
+		Rule:        "cases = byte strings: exhaustive over the 24-symbol alphabet up to length 5 (quick) / 6 (thorough), literal matrix, number forms, keyword casings, comment forms, corpus files, random hostile bytes; distinct_nontrivial = accepted enumerated strings (distinct by construction) + distinct accepted strings of the other workloads",
 		Assumptions: []string{"whitespace means unicode.IsSpace (the property only says 'whitespace')"},
 		Floors: func(m *Merged) []string {
 			if m.Counters["accepted"] == 0 || m.Counters["comments"] == 0 {
@@ -69,10 +69,10 @@ func init() {
 		},
 	})
 	register(&Prop{
-		ID:  "C14",
-		Run: RunC14,
-		Replay: func(c *Ctx, entry, input string) { CheckC14(c, input) },
-		Rule: "same workloads as C13; each input lexed by memefish and by the independent reference lexer (internal/reflex, DESIGN Appendix A); distinct_nontrivial = distinct (token-kind skeleton, literal values) classes among inputs accepted by both with >= 2 tokens",
+		ID:          "C14",
+		Run:         RunC14,
+		Replay:      func(c *Ctx, entry, input string) { CheckC14(c, input) },
+		Rule:        "same workloads as C13; each input lexed by memefish and by the independent reference lexer (internal/reflex, DESIGN Appendix A); distinct_nontrivial = distinct (token-kind skeleton, literal values) classes among inputs accepted by both with >= 2 tokens",
 		Assumptions: []string{"the reference lexer is the specification; where the documentation is silent it answers 'unspecified' and the case is not judged (counted in coverage.counters.unspecified)"},
 		Floors: func(m *Merged) []string {
 			if m.Counters["ref_accept"] == 0 || m.Counters["ref_reject"] == 0 {
@@ -82,10 +82,10 @@ func init() {
 		},
 	})
 	register(&Prop{
-		ID:  "C15",
-		Run: RunC15,
-		Replay: func(c *Ctx, entry, input string) { CheckC15(c, input) },
-		Rule: "cases = strings s through QuoteSQLString/QuoteSQLBytes/QuoteSQLIdent: exhaustive over all 1- and 2-byte strings and all Unicode code points, reserved words, random longer strings (valid and invalid UTF-8, quotes, backslashes, controls); distinct_nontrivial = exhaustive members (distinct by construction) + distinct random strings",
+		ID:          "C15",
+		Run:         RunC15,
+		Replay:      func(c *Ctx, entry, input string) { CheckC15(c, input) },
+		Rule:        "cases = strings s through QuoteSQLString/QuoteSQLBytes/QuoteSQLIdent: exhaustive over all 1- and 2-byte strings and all Unicode code points, reserved words, random longer strings (valid and invalid UTF-8, quotes, backslashes, controls); distinct_nontrivial = exhaustive members (distinct by construction) + distinct random strings",
 		Assumptions: []string{"'lexes as' is decided by memefish.Lexer and, where it has an opinion, by the reference lexer"},
 		Floors: func(m *Merged) []string {
 			if m.Counters["ident_quoted"] == 0 || m.Counters["ident_unquoted"] == 0 {
@@ -95,10 +95,10 @@ func init() {
 		},
 	})
 	register(&Prop{
-		ID:  "C20",
-		Run: RunC20,
-		Replay: func(c *Ctx, entry, input string) { ReplayC20(c, entry, input) },
-		Rule: "cases = (text, pos, end): exhaustive texts of up to 6 (quick) / 8 (thorough) symbols over {a, LF, CR, é} x all pairs 0<=pos<=end<=len, random multi-line texts x sampled pairs, plus every *Error produced by token mutants / hostile bytes through all entry points; distinct_nontrivial = enumerated texts + distinct random texts + distinct (entry, first message) classes",
+		ID:          "C20",
+		Run:         RunC20,
+		Replay:      func(c *Ctx, entry, input string) { ReplayC20(c, entry, input) },
+		Rule:        "cases = (text, pos, end): exhaustive texts of up to 6 (quick) / 8 (thorough) symbols over {a, LF, CR, é} x all pairs 0<=pos<=end<=len, random multi-line texts x sampled pairs, plus every *Error produced by token mutants / hostile bytes through all entry points; distinct_nontrivial = enumerated texts + distinct random texts + distinct (entry, first message) classes",
 		Assumptions: []string{"numbered excerpt lines are recognised as '<spaces><digits>|<text>'; only the line number and that the text ends with the buffer line are checked, not the layout"},
 		Floors: func(m *Merged) []string {
 			if m.Counters["errors_checked"] == 0 {
